@@ -211,7 +211,7 @@ def processCase (c : Case) : String := Id.run do
     let oldLeak := (leaked { d with keepChan := true }).map kindOfNode
     let explained := odouble.isEmpty && queued > 0 && kinds.all fun k => countKind oldLeak k == countKind oleak k
     let mper := mper ++ (if explained then "] tag=backlog-cycle old-code-model=[body=" ++ toString (countKind oldLeak "body") else "")
-    return s!"fail {id} op={idx} kind=reject clause=dropped-exactly-once first={o.kind}:{o.tag} c={o.c} d={o.d} {per} stop={stop} res={res} queued={queued} fes={fes} model-leaks=[{mper}]"
+    return s!"fail {id} op={idx} kind=reject clause=dropped-exactly-once first={o.kind}:{o.tag} c={o.c} d={o.d} {per} stop={stop} res={res} queued={queued} fes={fes} model-leaks=[{mper}] second-sim={if sim2 == sim2Expected then "same" else "differs:" ++ sim2}"
   | none => pure ()
   if sim2 != sim2Expected then
     return s!"fail {id} op={nobjs} kind=reject clause=second-simulation spec={sim2Expected} impl={sim2}"
